@@ -308,18 +308,21 @@ impl<'a> RoundTrip<'a> {
 /// putting all entries into the root directory and round-trips the sizes around that boundary.
 fn pmtiles_root_boundary(rtp: &RoundTrip, rng: &mut Rng, viol: &mut Vec<V>, stats: &mut BTreeMap<String, u64>, thorough: bool) {
 	let all: Vec<((u8, u32, u32), Vec<u8>)> = { let mut seen = std::collections::HashSet::new(); let mut v = vec![];
-		while v.len() < 5200 { let c = (13u8, rng.below(8192) as u32, rng.below(8192) as u32); if seen.insert(c) { let n = 1 + rng.below(60) as usize; v.push((c, rng.bytes(n))); } } v };
+		while v.len() < 13000 { let c = (13u8, rng.below(8192) as u32, rng.below(8192) as u32); if seen.insert(c) { let n = 1 + rng.below(60) as usize; v.push((c, rng.bytes(n))); } } v };
 	let write = |n: usize| -> Option<(Vec<u8>, u64)> {
 		let p = rtp.dir.join("boundary.pmtiles"); let _ = std::fs::remove_file(&p);
 		let mut src = MemSource::new("mem", all[..n].to_vec(), TileFormat::PNG, TileCompression::Uncompressed);
 		match guarded(|| rtp.rt.block_on(write_to_filename(&mut src, p.to_str().unwrap()))) { Ok(Ok(())) => {} _ => return None }
 		let b = std::fs::read(&p).ok()?; let leaf_len = u64::from_le_bytes(b[48..56].try_into().ok()?); Some((b, leaf_len)) };
 	// largest n whose directory is root-only
-	let (mut lo, mut hi) = (1usize, all.len());
+	let (mut lo, mut hi) = (1usize, 5200usize);
 	if write(hi).map_or(true, |w| w.1 == 0) { return; }
 	while hi - lo > 1 { let mid = (lo + hi) / 2; match write(mid) { Some((_, 0)) => lo = mid, _ => hi = mid } }
 	stats.insert("pmtiles_root_only_limit".into(), lo as u64);
 	let around: Vec<usize> = if thorough { (lo.saturating_sub(60)..lo + 120).collect() } else { (lo.saturating_sub(6)..lo + 60).step_by(3).chain(lo.saturating_sub(2)..lo + 3).collect() };
+	// sizes on both sides of the multiples of the leaf size (4096 entries): one, two, three and four leaves, the last
+	// one full, nearly empty or holding a single entry
+	let around: Vec<usize> = around.into_iter().chain([4095usize, 4096, 4097, 4099, 5199, 8191, 8193, 8195, 12289, 12291, 12999]).chain(if thorough { (12280..12300).collect::<Vec<_>>() } else { vec![] }).collect();
 	for n in around {
 		if n == 0 || n > all.len() { continue; }
 		let desc = format!("pmtiles PNG Uncompressed tiles={n} (root-only limit of this set: {lo} tiles)");
